@@ -17,6 +17,7 @@ structure St where
   caches : List (String × Cache) := []
   createds : List Nat := []             -- spec side: creation seconds of all writers so far
   pid : Bool := false                   -- file names carry `.pid<pid>` (printed as `.pidN`)
+  app : String := "v.app"               -- the application name: an opaque string, only part of the file names
   touched : List (String × Bool) := []  -- foreign directory entries (name, is a directory): no part of the log
   rawD : Bytes := []                    -- garbage appended to the last data / idx file after the writer died
   rawI : Bytes := []
@@ -91,8 +92,8 @@ def fileName (n : Name) : String :=
   "app-metrics.log." ++ bytesStr (dateStr n.1) ++ (if n.2 = 0 then "" else "." ++ toString n.2)
 
 /-- C17's own cases run with app name `v.app` (the dot becomes `-`) and optionally with the pid suffix -/
-def fileNameC (pid : Bool) (n : Name) : String :=
-  "v-app-metrics.log" ++ (if pid then ".pidN" else "") ++ "." ++ bytesStr (dateStr n.1) ++ (if n.2 = 0 then "" else "." ++ toString n.2)
+def fileNameC (app : String) (pid : Bool) (n : Name) : String :=
+  app.replace "." "-" ++ "-metrics.log" ++ (if pid then ".pidN" else "") ++ "." ++ bytesStr (dateStr n.1) ++ (if n.2 = 0 then "" else "." ++ toString n.2)
 
 def getCache (s : St) (sid : String) : Cache :=
   match s.caches.find? (·.1 == sid) with
@@ -186,9 +187,14 @@ def step (spec : Bool) (s : St) (ts : List String) (_ : String) : St × Option S
   | ["log.end"] => ({ now := s.now }, none)
   | "log.new" :: a :: b :: opt => match a.toNat?, b.toNat? with
       | some a, some b =>
-        if opt != [] ∧ opt != ["pid"] then (s, some "bad-op")
+        let apps := opt.filter (·.startsWith "app=")
+        if !(opt.all fun o => o == "pid" || o.startsWith "app=") then (s, some "bad-op")
         else if a = 0 ∨ b = 0 then ({ now := s.now }, some "err")
-        else ({ now := s.now, w := some (Writer.new s.now a b), createds := [s.now / 1000], pid := opt == ["pid"] }, some "ok")
+        else
+          let app := match apps.getLast? with
+            | some o => bytesStr (resOfTok (o.drop 4).toString)
+            | none => "v.app"
+          ({ now := s.now, w := some (Writer.new s.now a b), createds := [s.now / 1000], pid := opt.contains "pid", app := app }, some "ok")
       | _, _ => (s, some "bad-op")
   | ["log.reopen", a, b] => match s.w, a.toNat?, b.toNat? with
       | some w, some a, some b =>
@@ -246,8 +252,8 @@ def step (spec : Bool) (s : St) (ts : List String) (_ : String) : St × Option S
       | some w =>
         let n := w.files.length
         let xs := w.files.zipIdx.foldl (fun acc (f, i) =>
-          let acc := if s.idxGone && i + 1 == n then acc else insertSorted (fileNameC s.pid f.name ++ ".idx", f.idx.length) acc
-          insertSorted (fileNameC s.pid f.name, f.data.length) acc) []
+          let acc := if s.idxGone && i + 1 == n then acc else insertSorted (fileNameC s.app s.pid f.name ++ ".idx", f.idx.length) acc
+          insertSorted (fileNameC s.app s.pid f.name, f.data.length) acc) []
         let xs := s.touched.foldl (fun acc t => insertSorted (t.1, 0) acc) xs
         (s, some (showList (xs.map fun p =>
           if s.touched.any (fun t => t.1 == p.1 && t.2) then s!"{p.1}/:0" else s!"{p.1}:{p.2}")))
